@@ -58,6 +58,8 @@ type depthInterp struct {
 	upnRoot types.Object
 	state   map[types.Object]dval
 	visit   func(access ast.Expr, E ast.Expr, idx ast.Expr, ints bool, d dval)
+	// visitIP, when set, is called for every selector E.IP / E.Code with the depth of E
+	visitIP func(sel *ast.SelectorExpr, d dval)
 }
 
 func (p *depthInterp) isUpn(e ast.Expr) bool {
@@ -168,6 +170,10 @@ func (p *depthInterp) exprWalk(n ast.Node) {
 			p.block(x.Body.List)
 			p.state = saved
 			return false
+		case *ast.SelectorExpr:
+			if p.visitIP != nil && (x.Sel.Name == "IP" || x.Sel.Name == "Code") && isEnvPtr(p.info.TypeOf(x.X)) {
+				p.visitIP(x, p.eval(x.X))
+			}
 		case *ast.IndexExpr:
 			if E, i, ok := intsAccess(p.info, x); ok {
 				p.visit(x, E, i, true, p.eval(E))
